@@ -287,7 +287,8 @@ def main() -> int:
            "registered_tags": built["n_tags"], "classes": built["n_classes"], "declarations_class_level": built["n_class_decls"],
            "declarations_tag_level": built["n_decls"], "cases_tag_x_xsdtype": len(cases),
            "applicable_declarations": sum(len(c["decls"]) for c in cases), "declarations_judged": len(judged_decl),
-           "not_applicable": built["not_applicable"], "op_counts": op_counts, "validated": tot,
+           "not_applicable": built["not_applicable"], "unsupported_content_models": built["unsupported"],
+           "handwritten_insertion_sites_not_judged_here": built["handwritten_sites"][:80], "op_counts": op_counts, "validated": tot,
            "design_counterexamples": {k: len(v) for k, v in sorted(design.items())},
            "observed_rejections": {k: len(v) for k, v in sorted(observed.items())},
            "latent_declarations": latent, "reported": reported,
@@ -301,8 +302,11 @@ def main() -> int:
                    "{required + one other permitted child (each), all later, all earlier, all permitted, every ordering of two kinds of a "
                    "repeatable mixed slot" + (", every schema-permitted subset of the slots for types with <= %d slots" % maxslots if thorough else
                                               " (kinds no declaration names: two representatives)") +
-                   "}, an exclusive slot contributing each alternative in turn, and applies every generated method of every declaration, "
-                   "2 deep; every transition is executed on a real element and the observed child sequence is validated by TLC"}
+                   "}, each family with the child's own slot empty and populated, an exclusive slot contributing each alternative in turn, "
+                   "a repeatable mixed slot each kind in turn and all kinds; applies every generated method of every declaration of the class "
+                   "to every context, and a second step to every state so reached (" +
+                   ("every method" if thorough else "inserting entry points only, element types of <= 16 slots") +
+                   "); every transition is executed on a real element and the observed child sequence is validated by TLC"}
     return rep.finish("model_checking", cov, [
         "TLC 1.8; the XSD files under /repo/spec (ISO/IEC 29500-4 transitional, OPC) are the schema",
         "slot model under-constrains: order inside one choice / one repeatable particle is not judged; refinement: an optional choice "
